@@ -610,3 +610,158 @@ Proof.
   unfold structure. cbn [st_class st_attrs st_init st_methods]. repeat split; try assumption.
   rewrite <- H3. now apply methods_sig.
 Qed.
+
+(* ---------------------------------------------------------------------------------------- *)
+(* input-level preconditions imply the AST is inside the fragment grammar                   *)
+(* ---------------------------------------------------------------------------------------- *)
+Definition aobj_ok (a : aobj) : bool := match typestr a with Ok t => typestr_ok t | _ => true end.
+Definition meth_ok (sp : argspec) : bool := spec_ok sp && forallb aobj_ok (map snd (as_anns sp)).
+Definition field_ok (kf : str * fkind) : bool :=
+  is_ident (fst kf) && match snd kf with KVirtual a => aobj_ok a | KField a => aobj_ok a | KMethod sp => meth_ok sp end.
+Definition fields_ok (fs : list (str * fkind)) : bool := forallb field_ok fs.
+Definition class_ok (tgt : target) (cn : option str) : bool :=
+  match class_name_of tgt cn with Ok n => is_ident n | _ => true end.
+
+Lemma fields_methods_ok : forall fs, fields_ok fs = true -> methods_ok fs = true.
+Proof.
+  induction fs as [|[k f] r IH]; [reflexivity|]. unfold fields_ok, methods_ok in *. cbn [forallb snd]. intros H.
+  apply andb_true_iff in H. destruct H as [Hf Hr]. rewrite (IH Hr), andb_true_r.
+  unfold field_ok in Hf. cbn [fst snd] in Hf. apply andb_true_iff in Hf. destruct Hf as [_ Hf].
+  destruct f; try reflexivity. unfold meth_ok in Hf. apply andb_true_iff in Hf. now destruct Hf.
+Qed.
+
+Lemma collect_ok : forall fs c, fields_ok fs = true -> collect fs = Ok c ->
+  forallb pair_ok (c_props c) = true /\ forallb pair_ok (c_attrs c) = true /\
+  forallb (fun km => is_ident (fst km) && meth_ok (snd km)) (c_methods c) = true.
+Proof.
+  induction fs as [|[k f] r IH]; intros c Hok H.
+  - injection H as <-. repeat split; reflexivity.
+  - unfold fields_ok in Hok. cbn [forallb] in Hok. apply andb_true_iff in Hok. destruct Hok as [Hf Hr].
+    unfold field_ok in Hf. cbn [fst snd] in Hf. apply andb_true_iff in Hf. destruct Hf as [Hk Hf].
+    cbn [collect] in H. destruct f as [a|sp|a].
+    + unfold arg_annotation in H. unfold aobj_ok in Hf. destruct (typestr a) as [t| |]; cbn [bind] in H; try discriminate.
+      destruct (collect r) as [c'| |]; cbn [bind] in H; try discriminate. injection H as <-.
+      destruct (IH c' Hr eq_refl) as (H1 & H2 & H3). cbn [c_props c_attrs c_methods forallb]. unfold pair_ok at 1. cbn [fst snd].
+      rewrite Hk, Hf, H1. auto.
+    + destruct (collect r) as [c'| |]; cbn [bind] in H; try discriminate. injection H as <-.
+      destruct (IH c' Hr eq_refl) as (H1 & H2 & H3). cbn [c_props c_attrs c_methods forallb fst snd].
+      rewrite Hk, Hf, H3. auto.
+    + unfold arg_annotation in H. unfold aobj_ok in Hf. destruct (typestr a) as [t| |]; cbn [bind] in H; try discriminate.
+      destruct (collect r) as [c'| |]; cbn [bind] in H; try discriminate. injection H as <-.
+      destruct (IH c' Hr eq_refl) as (H1 & H2 & H3). cbn [c_props c_attrs c_methods forallb]. unfold pair_ok at 1 3. cbn [fst snd].
+      rewrite Hk, Hf, H1, H2. auto.
+Qed.
+
+Lemma assoc_aobj_ok : forall (anns : list (str * aobj)) a o,
+  forallb aobj_ok (map snd anns) = true -> assoc str_eqb a anns = Some o -> aobj_ok o = true.
+Proof.
+  induction anns as [|[k x] r IH]; intros a o H Ha; [discriminate|].
+  cbn [map snd forallb] in H. apply andb_true_iff in H. destruct H as [Hx Hr].
+  cbn [assoc] in Ha. destruct (str_eqb a k); [injection Ha as <-; exact Hx|now apply (IH a)].
+Qed.
+
+Lemma ann_pair_ok : forall anns a p, is_ident a = true -> forallb aobj_ok (map snd anns) = true ->
+  ann_pair anns a = Ok p -> item_ok (plain p) = true.
+Proof.
+  intros anns a p Ha Hanns H. unfold ann_pair in H. destruct (assoc str_eqb a anns) as [o|] eqn:Eo.
+  - pose proof (assoc_aobj_ok _ _ _ Hanns Eo) as Ho. unfold aobj_ok in Ho.
+    destruct (typestr o) as [t| |]; cbn [bind] in H; try discriminate. injection H as <-.
+    cbn [plain fst snd item_ok]. now rewrite Ha, Ho.
+  - cbn [bind] in H. injection H as <-. cbn [plain fst snd item_ok]. now rewrite Ha.
+Qed.
+
+Lemma mapM_ann_pair_ok : forall anns l l', forallb is_ident l = true -> forallb aobj_ok (map snd anns) = true ->
+  mapM (ann_pair anns) l = Ok l' -> forallb item_ok (map plain l') = true.
+Proof.
+  induction l as [|a l IH]; intros l' Hl Hanns H.
+  - injection H as <-. reflexivity.
+  - cbn [forallb] in Hl. apply andb_true_iff in Hl. destruct Hl as [Ha Hl].
+    cbn [mapM] in H. destruct (ann_pair anns a) as [p| |] eqn:Ep; cbn [bind] in H; try discriminate.
+    destruct (mapM (ann_pair anns) l) as [ys| |]; cbn [bind] in H; try discriminate. injection H as <-.
+    cbn [map forallb]. now rewrite (ann_pair_ok _ _ _ Ha Hanns Ep), (IH ys Hl Hanns eq_refl).
+Qed.
+
+Lemma method_ast_ok : forall k sp d, is_ident k = true -> meth_ok sp = true -> method_ast k sp = Ok d -> def_ok d = true.
+Proof.
+  intros k sp d Hk Hm H. unfold meth_ok, spec_ok in Hm.
+  apply andb_true_iff in Hm. destruct Hm as [Hm Hanns]. apply andb_true_iff in Hm. destruct Hm as [Hn _].
+  unfold spec_names_ok in Hn. repeat (apply andb_true_iff in Hn; let X := fresh "Hn" in destruct Hn as [Hn X]).
+  unfold method_ast in H. destruct (as_args sp) as [|a0 pos]; [discriminate|].
+  cbn [forallb] in Hn. apply andb_true_iff in Hn. destruct Hn as [_ Hpos].
+  destruct (ann_pair (as_anns sp) a0); cbn [bind] in H; try discriminate.
+  destruct (mapM (ann_pair (as_anns sp)) pos) as [pos'| |] eqn:Ep; cbn [bind] in H; try discriminate.
+  destruct (mapM (ann_pair (as_anns sp)) (as_kwonly sp)) as [kw'| |] eqn:Ek; cbn [bind] in H; try discriminate.
+  injection H as <-. unfold def_ok, items_of. cbn [m_name m_args a_args a_vararg a_kwonly a_kwarg map app nonempty].
+  rewrite Hk. cbn [andb forallb plain fst snd item_ok]. replace (is_ident s_self) with true by reflexivity. cbn [andb].
+  rewrite !forallb_app. rewrite (mapM_ann_pair_ok _ _ _ Hpos Hanns Ep), (mapM_ann_pair_ok _ _ _ Hn3 Hanns Ek).
+  cbn [andb]. destruct (as_varargs sp), kw', (as_varkw sp); cbn [forallb item_ok opt_ok andb] in *; rewrite ?Hn2, ?Hn1; reflexivity.
+Qed.
+
+Lemma methods_ast_ok : forall ms ds, forallb (fun km => is_ident (fst km) && meth_ok (snd km)) ms = true ->
+  mapM method_ast_of ms = Ok ds -> forallb def_ok ds = true.
+Proof.
+  induction ms as [|[k sp] r IH]; intros ds Hok H.
+  - injection H as <-. reflexivity.
+  - cbn [forallb fst snd] in Hok. apply andb_true_iff in Hok. destruct Hok as [Hk Hr]. apply andb_true_iff in Hk. destruct Hk as [Hk Hm].
+    cbn [mapM] in H. unfold method_ast_of at 1 in H. cbn [fst snd] in H.
+    destruct (method_ast k sp) as [d| |] eqn:Ed; cbn [bind] in H; try discriminate.
+    destruct (mapM method_ast_of r) as [ds'| |]; cbn [bind] in H; try discriminate. injection H as <-.
+    cbn [forallb]. now rewrite (method_ast_ok _ _ _ Hk Hm Ed), (IH ds' Hr eq_refl).
+Qed.
+
+Lemma stub_ast_ok : forall tgt cn fs s, class_ok tgt cn = true -> fields_ok fs = true ->
+  stub_ast tgt cn fs = Ok s -> stub_ok s = true.
+Proof.
+  intros tgt cn fs s Hc Hf H. unfold stub_ast in H. unfold class_ok in Hc.
+  destruct (class_name_of tgt cn) as [name| |]; cbn [bind] in H; try discriminate.
+  destruct (collect fs) as [c| |] eqn:Ec; cbn [bind] in H; try discriminate.
+  destruct (mapM method_ast_of (c_methods c)) as [ms| |] eqn:Em; cbn [bind] in H; try discriminate.
+  injection H as <-. destruct (collect_ok _ _ Hf Ec) as (H1 & H2 & H3).
+  unfold stub_ok. cbn [st_class st_attrs st_init st_methods]. now rewrite Hc, H1, H2, (methods_ast_ok _ _ H3 Em).
+Qed.
+
+(* the main theorem: whatever generate_stub returns for a schema inside the preconditions is the
+   rendering of an AST with the required structure, and the fragment parser gives that AST back *)
+Theorem stub_valid_partial : forall tgt cn fs lines,
+  class_ok tgt cn = true -> fields_ok fs = true ->
+  stub_lines tgt cn fs = Ok lines ->
+  exists s, stub_ast tgt cn fs = Ok s /\ lines = render s /\ parse_stub lines = Some s /\ structure tgt cn fs s.
+Proof.
+  intros tgt cn fs lines Hc Hf H. rewrite (stub_lines_render _ _ _ (fields_methods_ok _ Hf)) in H. unfold fmap in H.
+  destruct (stub_ast tgt cn fs) as [s| |] eqn:Es; cbn [bind] in H; try discriminate. injection H as <-.
+  exists s. repeat split; try reflexivity.
+  - apply parse_render. exact (stub_ast_ok _ _ _ _ Hc Hf Es).
+  - destruct (stub_structure _ _ _ _ Es) as (A & _). exact A.
+  - destruct (stub_structure _ _ _ _ Es) as (_ & A & _). exact A.
+  - destruct (stub_structure _ _ _ _ Es) as (_ & _ & A & _). exact A.
+  - destruct (stub_structure _ _ _ _ Es) as (_ & _ & _ & A). exact A.
+Qed.
+
+(* inside the preconditions the only way to fail is a TypeError: missing class name, wrong target, or
+   an annotation object that is not a type / string / typing construct *)
+Example stub_valid_satisfiable :
+  let sp := mk_argspec [sa "cfg"; sa "a"] None (Some (sa "kw")) 1 [sa "k"] []
+                       [(sa "a", ATyping (sa "typing.Dict[str, int]")); (s_return, ANone)] in
+  let fs := [(sa "x", KField (AField (SClass s_builtins (sa "int")))); (sa "v", KVirtual (AField (SClass (sa "typing") (sa "Any"))));
+             (sa "m", KMethod sp)] in
+  class_ok TgtSchema (Some (sa "Foo")) = true /\ fields_ok fs = true /\
+  exists lines, stub_lines TgtSchema (Some (sa "Foo")) fs = Ok lines.
+Proof. repeat split; eexists; reflexivity. Qed.
+
+(* open finding F45: with no plain leading positional parameter, items[0] = "self" overwrites "*args":
+   the parsed stub has neither *args nor the keyword-only parameter of the bound function *)
+Example method_sig_refuted :
+  exists sp, spec_names_ok sp = true /\ known_F45 sp = true /\
+    exists text d, method_annotation (sa "m") sp = Ok text /\ parse_def (indent text) = Some d /\
+      a_vararg (m_args d) <> as_varargs sp /\ map fst (a_kwonly (m_args d)) <> as_kwonly sp.
+Proof.
+  exists (mk_argspec [] (Some (sa "args")) None 0 [sa "k"] [sa "k"] []).
+  split; [reflexivity|]. split; [reflexivity|].
+  eexists. eexists. split; [vm_compute; reflexivity|]. split; [vm_compute; reflexivity|].
+  split; discriminate.
+Qed.
+
+(* the defaults of the function never reach the stub (the code reads them into `_`) *)
+Lemma stub_ignores_defaults : forall key a va vk nd nd' kwo kwd kwd' anns,
+  method_annotation key (mk_argspec a va vk nd kwo kwd anns) = method_annotation key (mk_argspec a va vk nd' kwo kwd' anns).
+Proof. reflexivity. Qed.
